@@ -130,6 +130,13 @@ ben("B24", ["C20"], "CLI: the query file is read as utf-8-sig (a byte-order mark
 ben("B26", ["C16", "C14", "C17"], "pure helpers memoised with functools.lru_cache (the I-Regexp translation; a process-wide cache of a pure function of its argument)", [
     (P + "function_extensions/_pattern.py", "from typing import List\n\n\ndef map_re(pattern: str) -> str:\n", "from functools import lru_cache\nfrom typing import List\n\n\n@lru_cache(maxsize=64)\ndef map_re(pattern: str) -> str:\n"),
 ])
+ben("B27", ["C17", "C18", "C16"], "module-level generators created at import time: random.SystemRandom() in segments.py, random.Random() in selectors.py", [
+    (P + "segments.py", "import random\n", "import random\n\n_RNG = random.SystemRandom()\n"),
+    (P + "segments.py", "random.randrange(", "_RNG.randrange("),
+    (P + "segments.py", "random.shuffle(", "_RNG.shuffle("),
+    (P + "selectors.py", "import random\n", "import random\n\n_RNG = random.Random()\n"),
+    (P + "selectors.py", ALL_ + "random.shuffle(", "_RNG.shuffle("),
+])
 
 
 # independently written property-preserving changes: /verif/benign/<id>/{patch.diff, meta.json}
